@@ -468,7 +468,23 @@ EmitB(k, nf, A, a2, d2, fd2, flags, probe) ==
 
 (* one more named parameter.  A side that has already deviated on this behaviour is no longer evaluated
    (its counters are meaningless); the other side goes on and is judged on its own (gcc on the deviating side) *)
-NoC == [mem |-> FALSE, off |-> 0]
+(* `probe` of a named transition: would a further `long` and a further `double` parameter be placed
+   without disagreement by the sides still judged?  The generator then also emits the behaviour
+   extended by these two: they take the next free register of each class (or the next stack slot),
+   so counters that drifted on a transition that leaves the psABI's state unchanged - an aggregate
+   that does not fit and goes to memory as a whole - are observed. *)
+NamedStep(T, st) ==
+  LET A == APass(T, st.a)
+      C == CallerDecide(T, st.cl)
+      P == PopRegs(T, st.pp)
+      E == CalleeOff(T, st.ce)
+      S == IF E.mem THEN <<>> ELSE SpillRegs(T, st.sp)
+  IN [a |-> A.a, cl |-> C.c, pp |-> Bump(st.pp, P), ce |-> E.c, sp |-> Bump(st.sp, S),
+      dC |-> CallerDis(T, A.loc, C, P), dE |-> CalleeDis(T, A.loc, E, S)]
+NamedProbeOK(st, cj2, ej2) ==
+  LET s1 == NamedStep(TY("l"), st)
+      s2 == NamedStep(TY("d"), s1)
+  IN (cj2 => s1.dC = {} /\ s2.dC = {}) /\ (ej2 => s1.dE = {} /\ s2.dE = {})
 PassNamed(k) ==
   LET T == TY(k)
       A == APass(T, a)
@@ -488,7 +504,9 @@ PassNamed(k) ==
      /\ last' = [k |-> k, A |-> A.loc, caller |-> [mem |-> C.mem, off |-> C.off], pop |-> P,
                  callee |-> [mem |-> E.mem, off |-> E.off], spill |-> S]
      /\ UNCHANGED <<ki, ri, ret, var, phase, va, vi, vf>>
-     /\ EmitB(k, nfix + 1, A.loc, A.a, d, {}, <<cj /\ dC = {}, ej /\ dE = {}, fj>>, FALSE)
+     /\ EmitB(k, nfix + 1, A.loc, A.a, d, {}, <<cj /\ dC = {}, ej /\ dE = {}, fj>>,
+              Len(args) + 2 < MaxLen /\ ((cj /\ dC = {}) \/ (ej /\ dE = {}))
+              /\ NamedProbeOK([a |-> A.a, cl |-> C.c, pp |-> Bump(pp, P), ce |-> E.c, sp |-> Bump(sp, S)], cj /\ dC = {}, ej /\ dE = {}))
 
 (* one more variadic argument; the first one also runs va_start.  `probe`: would a further 24-byte
    struct (always fetched from the overflow area, 8-aligned) be passed and fetched without disagreement?
